@@ -60,6 +60,11 @@ var (
 	twoChar  []int
 	partners []int // partners of the 2-character strings
 	reduced  []int // pool of the exhaustive triples
+	// the mode grid: optional unit / mode / encoding arguments ('LEN' | 'BYTE' | 'WIDTH', encodings) × strings of
+	// characters whose length, byte count and display width differ (zero-width, combining, wide, surrogate pair, control)
+	specials  []int
+	smallInts []int
+	modes     []int
 )
 
 func sqlString(s string) string {
@@ -194,6 +199,30 @@ func initPools() {
 	for _, s := range words {
 		mark(addStr("word", s), false)
 	}
+	for _, s := range []string{"\u0301", "\u200b", "\u0301\u200b\u0301", "\u65e5\u672c", "\U0001F600", "\x01\x1b", "\t\n", "\uff71", "a\u0301", "\u200f\u202e"} {
+		i := addStr("special", s)
+		mark(i, false)
+		specials = append(specials, i)
+	}
+	for i, v := range vals {
+		in := func(xs ...string) bool {
+			for _, x := range xs {
+				if v.sql == x {
+					return true
+				}
+			}
+			return false
+		}
+		if in("''", "'abc'", "'"+strings.Repeat("a", 5000)+"'") {
+			specials = append(specials, i)
+		}
+		if in("0", "1", "-1", "3", "5", "10") {
+			smallInts = append(smallInts, i)
+		}
+		if in("'LEN'", "'BYTE'", "'WIDTH'", "'UTF8'", "'SJIS'", "'UTF16'", "'AUTO'", "'XXX'", "NULL", "''") {
+			modes = append(modes, i)
+		}
+	}
 	for _, a := range alphabet {
 		for _, b := range alphabet {
 			twoChar = append(twoChar, addStr("string2", string(a)+string(b)))
@@ -295,6 +324,38 @@ func forEachCall(t task, seed int64, f func(k int, args []int) bool) {
 				for _, c := range reduced {
 					if !emit(a, b, c) {
 						return
+					}
+				}
+			}
+		}
+	}
+	if t.Phase == 0 {
+		// the mode grid (see the pools): f(s, m), f(s, x, m), f(s, i, s2, m), f(s, i, s2, m, m2)
+		for _, a := range specials {
+			for _, m := range modes {
+				if !emit(a, m) {
+					return
+				}
+				for _, x := range smallInts {
+					if !emit(a, x, m) {
+						return
+					}
+				}
+				for _, x := range specials {
+					if !emit(a, x, m) {
+						return
+					}
+				}
+				for _, i := range smallInts {
+					for _, b := range specials {
+						if !emit(a, i, b, m) {
+							return
+						}
+						for _, m2 := range modes[:3] {
+							if !emit(a, i, b, m, m2) {
+								return
+							}
+						}
 					}
 				}
 			}
